@@ -2,6 +2,7 @@ package stdlib
 
 import (
 	"fmt"
+	"math/big"
 
 	"github.com/zclconf/go-cty/cty"
 	"github.com/zclconf/go-cty/cty/convert"
@@ -147,6 +148,21 @@ var RangeFunc = function.New(&function.Spec{
 	Type:         function.StaticReturnType(cty.List(cty.Number)),
 	RefineResult: refineNonNull,
 	Impl: func(args []cty.Value, retType cty.Type) (ret cty.Value, err error) {
+		// Stepping from one infinity by the opposite one makes big.Float
+		// panic, so we must catch that here in order to remain within the
+		// cty Function abstraction.
+		defer func() {
+			if r := recover(); r != nil {
+				if _, ok := r.(big.ErrNaN); ok {
+					ret = cty.NilVal
+					err = fmt.Errorf("can't step between opposing infinities")
+				} else {
+					// not a panic we recognize
+					panic(r)
+				}
+			}
+		}()
+
 		var start, end, step cty.Value
 		switch len(args) {
 		case 1:
